@@ -1,14 +1,18 @@
 ---- MODULE MC_TrieSync ----
-EXTENDS TrieSync, Json
-CONSTANT Depth
-\* toy shapes (replaced by generated ones)
-ToyA == [name |-> "toyA", ch |-> <<<<2, 3>>, <<>>, <<>>, <<>>, <<2, 4>>>>, root |-> 1, db0s |-> {{}}]
-ToyB == [name |-> "toyB", ch |-> <<<<2>>, <<3, 4, 3>>, <<>>, <<5>>, <<6, 7>>, <<>>, <<>>, <<4, 3>>>>, root |-> 1, db0s |-> {{}, {4, 6}}]
-MCShapes == {ToyA, ToyB}
+(* Model-checking and behaviour-export instances of TrieSync over the shapes of TrieSyncShapes.tla *)
+EXTENDS TrieSync, TrieSyncShapes, Json
+CONSTANTS Depth, ShapeNames
+MCShapes == {s \in AllShapes : s.name \in ShapeNames}
 MCInitDBs(s) == s.db0s
+NoResume(s) == {{}}
 LogAppend(h, r) == Append(h, r)
 LogLast(h, r) == <<r>>
+\* behaviour export: histories are cut at Depth inside Next
 GenNext  == Len(hist) < Depth /\ Next
 GenSpec  == Init /\ [][GenNext]_vars
-EmitFull == (Len(hist') = Depth \/ result' # "running") => PrintT("@@B " \o ToJson(hist'))
+\* one line per finished (or cut) behaviour: the history, plus what the specification knows at its end
+Emit == PrintT("@@B " \o ToJson([h |-> hist', avail |-> avail', target |-> Target, result |-> result']))
+EmitFull == (Len(hist') = Depth \/ result' # "running") => Emit
+\* liveness instance: no cancellation/timeout, bounded adversary
+LiveSpec == FairSpec
 ====
